@@ -92,6 +92,20 @@ Section C06.
     intro lazy. exact (batch_refines_simple_lemma SC DET JD REC sc0 prep write V batches lazy
                           voting_threads_exist scenes_distinct_in_a_batch).
   Qed.
+
+  (* Ids: every id in circulation (in a retrieved or queued result, or in a job's partial result) was drawn from
+     the shared counter, and a step either leaves the counter alone or draws counter + 1: a newly issued id
+     differs from every id issued before, whatever the interleaving of the voting threads. *)
+  Theorem issued_ids_are_fresh :
+    forall lazy sigma st,
+      RUN lazy INIT sigma = Some st ->
+      (forall t, occurs SC DET JD REC st t -> (t <= counter st)%N) /\
+      (forall l st', FIRE lazy st l = Some st' -> counter st' = counter st \/ counter st' = (counter st + 1)%N).
+  Proof.
+    intros lazy sigma st H. split.
+    - intro t. exact (ids_bounded_lemma SC DET JD REC sc0 prep write V batches lazy voting_threads_exist sigma st t H).
+    - intros l st'. exact (counter_step_lemma SC DET JD REC prep write V batches lazy st l st').
+  Qed.
 End C06.
 
 (* The proviso is needed: if the caller retrieves results only after it has submitted everything, a batch of
